@@ -804,10 +804,13 @@ type fataler interface {
 	Fatalf(string, ...interface{})
 }
 
-func runAndRecord(t fataler, c caseT) {
-	hx.Journal(c)
+func runAndRecord(t fataler, c caseT, journal bool) {
+	if journal {
+		hx.Journal(c)
+	}
 	v, err := checkCase(c)
 	if err != nil {
+		hx.Journal(c) // the failing case is the replay unit (TestReplayJournal)
 		b, _ := json.Marshal(c)
 		t.Fatalf("%v\ncase=%s", err, b)
 	}
@@ -824,7 +827,7 @@ func TestProp(t *testing.T) {
 			stats.Discard()
 			t.Skip("input class of a known finding")
 		}
-		runAndRecord(t, c)
+		runAndRecord(t, c, true)
 	})
 }
 
